@@ -226,6 +226,9 @@ func handleSetUser(params internal.HandlerFuncParams) ([]byte, error) {
 	if !ok {
 		return nil, errors.New("could not load ACL")
 	}
+	if len(params.Command) < 3 {
+		return nil, errors.New(constants.WrongArgsResponse)
+	}
 	if err := acl.SetUser(params.Command[2:]); err != nil {
 		return nil, err
 	}
